@@ -942,6 +942,14 @@ func cffOutlines(r *rand.Rand, o Opts, n int, widths []int, cidKeyed bool, info 
 				for i := range perm {
 					perm[i] = (start + i) % 256
 				}
+				if full && r.IntN(2) == 0 {
+					// 128 runs of two codes, in reversed block order: the two
+					// formats of the encoding table are then about equally long
+					for i := range perm {
+						perm[i] = 2*(127-i/2) + i%2
+					}
+					info.Classes = append(info.Classes, "cff:encoding-128-runs")
+				}
 			}
 			for g := 1; g <= k; g++ {
 				enc[perm[g-1]] = glyph.ID(g)
